@@ -623,8 +623,8 @@ class HeapMixin:
         s = to_zstr(base)
         n = z3.Length(s)
         ok = z3.And(zint(i) < n, zint(i) >= -n)
-        if not self.branch(ok, 'stridx@%s' % getattr(node, 'lineno', '?')):
-            self.raise_builtin('IndexError', node=node)
+        if not self.spec_mode and not self.branch(ok, 'stridx@%s' % getattr(node, 'lineno', '?')):
+            self.raise_builtin('IndexError', node=node)      # (specifications read positions as a total function)
         pos = z3.If(zint(i) < 0, zint(i) + n, zint(i))
         if str_kind(base) == 'bytes':
             return z3.StrToCode(z3.SubString(s, pos, 1))
